@@ -16,7 +16,10 @@ RULE = ('documents generated from the reference grammar (schema-valid by constru
         'score-partwise documents written with write(); (ii) for every element name, small documents rooted at that '
         'element, written as declaration + to_string(). Each is parsed back with parse_musicxml, re-serialised, compared as '
         'an infoset (decimal spelling of decimal-typed content is the only tolerated difference), round-tripped a second '
-        'time (byte identity) and its parsed values are checked for numeric equality and integer-ness. Documents the '
+        'time (byte identity) and its parsed values are checked for numeric equality and integer-ness; (iii) large '
+        'scores (70 KB - 1 MB) dense in 2-, 3- and 4-byte UTF-8 characters, built once and re-written with the title padded so '
+        'that a multi-byte character straddles each power-of-two offset from 64 KiB up exactly (4 KiB multiples are '
+        'straddled by chance; counters say how often). Documents the '
         'builder refuses are inconclusive (counted), not violations. non-trivial = accepted by the builder; distinct = '
         'distinct serialisation text')
 ASSUMPTIONS = ['documents the API refuses (C02 / attribute defects) are outside C08 and counted as inconclusive',
@@ -54,21 +57,25 @@ def sig_of(kind, name, diff=None, exc=None):
 diff_cause = docs.diff_cause
 
 
-def check_doc(et_doc, lib, tmp, use_write, viol, c):
+def check_doc(et_doc, lib, tmp, use_write, viol, c, obj=None):
     """returns 'inconclusive' | 'ok' | 'violated'"""
     from musicxml.parser.parser import parse_musicxml
-    try:
-        obj = docs.build_api(et_doc, lib, check=True)
-    except docs.BuildRefused as e:
-        c['builder_refused'] += 1
-        c['builder_refused:' + type(e.exc).__name__] += 1
-        return 'inconclusive'
+    if obj is None:
+        try:
+            obj = docs.build_api(et_doc, lib, check=True)
+        except docs.BuildRefused as e:
+            c['builder_refused'] += 1
+            c['builder_refused:' + type(e.exc).__name__] += 1
+            return 'inconclusive'
     if use_write:
         r = lib.call(obj.write, tmp.name)
         if r[0] == 'exc':
             c['library_refused_to_emit'] += 1
             return 'inconclusive'
-        text1 = tmp.read_bytes().decode('utf-8')
+        raw = tmp.read_bytes()
+        if len(raw) > 50000:
+            c['_last_written'] = raw
+        text1 = raw.decode('utf-8')
     else:
         r = lib.call(obj.to_string)
         if r[0] == 'exc':
@@ -131,6 +138,40 @@ def check_doc(et_doc, lib, tmp, use_write, viol, c):
     return 'violated' if bad else 'ok'
 
 
+ALPHABETS = {'greek': '\u03b1\u03b2\u03b3\u03b4\u03b5\u03b6\u03b7\u03b8', 'cjk': '\u97f3\u697d\u8b5c\u8868\u8a18\u6cd5',
+             'emoji': '\U0001d11e\U0001d122\U0001f3b5\U0001f3b6', 'mixed': 'a\u00e9\u97f3\U0001d11e-\u03b2z'}
+
+
+def large_score(measures, pad, alphabet):
+    """a big, schema-valid score-partwise whose text is dense in multi-byte characters; deterministic in its arguments"""
+    chars = ALPHABETS[alphabet]
+
+    def txt(i, n):
+        return ''.join(chars[(i * 7 + j * 3) % len(chars)] for j in range(n)) or 'x'
+    root = ET.Element('score-partwise', {'version': '4.0'})
+    ET.SubElement(ET.SubElement(root, 'work'), 'work-title').text = 'T' + 'p' * pad
+    pl = ET.SubElement(root, 'part-list')
+    sp = ET.SubElement(pl, 'score-part', {'id': 'P1'})
+    ET.SubElement(sp, 'part-name').text = txt(1, 9)
+    part = ET.SubElement(root, 'part', {'id': 'P1'})
+    for m in range(measures):
+        me = ET.SubElement(part, 'measure', {'number': str(m + 1)})
+        if m % 5 == 0:
+            d = ET.SubElement(me, 'direction', {'placement': 'above'})
+            ET.SubElement(ET.SubElement(d, 'direction-type'), 'words', {'font-family': txt(m, 5)}).text = txt(m, 30)
+        for k in range(4):
+            n = ET.SubElement(me, 'note')
+            pi = ET.SubElement(n, 'pitch')
+            ET.SubElement(pi, 'step').text = 'CDEFGAB'[(m + k) % 7]
+            ET.SubElement(pi, 'octave').text = str(3 + (m + k) % 3)
+            ET.SubElement(n, 'duration').text = '1'
+            ET.SubElement(n, 'type').text = 'quarter'
+            ly = ET.SubElement(n, 'lyric', {'number': '1'})
+            ET.SubElement(ly, 'syllabic').text = 'single'
+            ET.SubElement(ly, 'text').text = txt(m * 4 + k, 25 + (m + k) % 11)
+    return root
+
+
 def run_shard(shard, tier, seed):
     from .. import lib
     viol = []
@@ -179,6 +220,49 @@ def run_shard(shard, tier, seed):
             if res != 'inconclusive':
                 seen.add(ET.tostring(el))
                 covered |= {x.tag for x in el.iter()}
+        # (iii) large documents dense in multi-byte characters. The object is built once per (alphabet, size); the padding of
+        # the work title is then changed so that a multi-byte character straddles a chosen power-of-two offset exactly
+        # (targets 64 KiB, 128 KiB, ...) besides the many 4 KiB multiples that are straddled by chance
+        import zlib
+        sl = shard['slice']
+        combos = [(al, sz) for al in sorted(ALPHABETS) for sz in ((45, 100) if tier == 'quick' else (45, 100, 260, 700))]
+        for al, sz in [x for i, x in enumerate(combos) if i % NSHARDS == sl]:
+            el = large_score(sz, 0, al)
+            if ref.validate_doc(el):
+                c['generator_produced_invalid'] += 1
+                continue
+            try:
+                obj = docs.build_api(el, lib, check=True)
+            except docs.BuildRefused:
+                c['builder_refused'] += 1
+                continue
+            title = obj.get_children()[0].get_children()[0]
+            r = lib.call(obj.write, tmp.name)
+            if r[0] == 'exc':
+                c['library_refused_to_emit'] += 1
+                continue
+            data0 = tmp.read_bytes()
+            pads = [0, 1, 2]
+            for B in (1 << 16, 1 << 17, 1 << 18, 1 << 19, 1 << 20):
+                if B < len(data0):
+                    o = next((o for o in range(B - 1, 0, -1) if data0[o] >= 0xC0), None)
+                    if o is not None and B - 1 - o < 4000:
+                        pads.append(B - 1 - o)
+            for pad in pads:
+                title.value_ = 'T' + 'p' * pad
+                el.find('work/work-title').text = 'T' + 'p' * pad
+                evals += 1
+                before = len(viol)
+                res = check_doc(el, lib, tmp, True, viol, c, obj=obj)
+                for x in viol[before:]:
+                    x['case'] = {'large': {'measures': sz, 'pad': pad, 'alphabet': al}}
+                c['large_' + res] += 1
+                if res != 'inconclusive':
+                    seen.add((al, sz, pad))
+                    c['large_bytes_total'] += len(data0) + pad
+                    data = c.pop('_last_written')
+                    c['large_multibyte_straddles_4k'] += sum(1 for o in range(4096, len(data), 4096) if data[o] & 0xC0 == 0x80)
+                    c['large_multibyte_straddles_64k'] += sum(1 for o in range(65536, len(data), 65536) if data[o] & 0xC0 == 0x80)
     finally:
         tmp.close()
     return {'evaluations': evals, 'distinct_nontrivial': len(seen), 'violations': viol, 'samples': samples,
@@ -199,12 +283,15 @@ def aggregate(results, tier, seed):
 
 def replay_case(rp):
     from .. import lib
-    text = rp['case']['text']
-    el = ET.fromstring(text.split('?>', 1)[1])
+    if 'large' in rp['case']:
+        el = large_score(**rp['case']['large'])
+    else:
+        text = rp['case']['text']
+        el = ET.fromstring(text.split('?>', 1)[1])
     viol = []
     tmp = docs.TempFile('mxverif-c08-')
     try:
-        res = check_doc(el, lib, tmp, False, viol, collections.Counter())
+        res = check_doc(el, lib, tmp, 'large' in rp['case'], viol, collections.Counter())
     finally:
         tmp.close()
     return {'violated': res == 'violated', 'result': res, 'violations': [v['sig'] for v in viol]}
